@@ -3,6 +3,7 @@
 package vkit
 
 import (
+	"bytes"
 	"fmt"
 	"sort"
 
@@ -60,6 +61,10 @@ func CrdtEvents() []event.Event {
 		&b1, &b2,
 		&event.Connection{Peer: 1, Conn: 5, ClientID: []byte("c5")},
 		&event.Connection{Peer: 2, Conn: 9, ClientID: []byte("c9")},
+		// entries whose value is larger than a kilobyte (a long channel name, a long client id): read caches and stores
+		// have size classes of their own
+		&event.Subscription{Peer: 2, Conn: 7, Ssid: message.Ssid{1, 9}, Channel: bytes.Repeat([]byte("long-channel-level/"), 60)},
+		&event.Connection{Peer: 1, Conn: 8, ClientID: bytes.Repeat([]byte("c"), 1500)},
 	}
 }
 
